@@ -808,6 +808,54 @@ def search(chk: core.Check) -> None:
     explore(chk, 200, (25, 70))
 
 
+def pickled_client(chk: core.Check) -> None:
+    """A cached client that has synced finished trials is pickled / deep-copied (what multiprocessing, joblib or a user's
+    copy.deepcopy(study) do) and the copy is used as a client of the same database: every answer of the copy must equal
+    the database's, in particular the trials that were finished and synced BEFORE the copy was taken (a copy that drops the
+    cached trials but keeps the finished-trial watermark never fetches them again).  Also through a gRPC proxy."""
+    import copy as _copy
+    import pickle
+
+    from optuna.storages import RDBStorage, _CachedStorage
+    from optuna.study import StudyDirection
+    from optuna.trial import TrialState
+
+    url = fresh_sqlite_url(chk.tmp)
+    raw = RDBStorage(url)
+    cached = _CachedStorage(RDBStorage(url))
+    sid = cached.create_new_study([StudyDirection.MINIMIZE], "pk")
+    tids = [cached.create_new_trial(sid) for _ in range(4)]
+    for i, t in enumerate(tids[:3]):
+        cached.set_trial_state_values(t, TrialState.COMPLETE if i != 1 else TrialState.FAIL, [float(i)] if i != 1 else None)
+    cached.get_all_trials(sid)                      # sync: three finished trials are cached, the watermark is past them
+    clones = {"pickle": pickle.loads(pickle.dumps(cached)), "deepcopy": _copy.deepcopy(cached)}
+    raw.set_trial_state_values(tids[3], TrialState.COMPLETE, [9.0])   # and something changes afterwards
+    t_new = raw.create_new_trial(sid)
+
+    def key(ts: list[Any]) -> list[Any]:
+        return [(t.number, int(t.state), t.values) for t in ts]
+
+    want = key(raw.get_all_trials(sid))
+    for how, c in clones.items():
+        chk.case({"part": "pickled-client", "how": how}, nontrivial=True)
+        chk.count("pickled-client:" + how)
+        try:
+            got = key(c.get_all_trials(sid))
+            got_done = key(c.get_all_trials(sid, states=(TrialState.COMPLETE, TrialState.FAIL)))
+            one = c.get_trial(tids[0]).number
+        except Exception as e:  # noqa: BLE001
+            chk.violation({"kind": "pickled-client", "how": how}, {"part": "pickled-client", "how": how, "error": repr(e)[:200]},
+                          "a %s copy of a synced _CachedStorage cannot answer: %r" % (how, e))
+            return
+        want_done = [k for k in want if k[1] in (int(TrialState.COMPLETE), int(TrialState.FAIL))]
+        if got != want or got_done != want_done or one != 0:
+            chk.violation({"kind": "pickled-client", "how": how}, {"part": "pickled-client", "how": how, "got": got, "want": want},
+                          "a %s copy of a _CachedStorage that had synced 3 finished trials answers get_all_trials with %s (finished only: %s), the database holds %s" % (
+                              how, got, got_done, want))
+            return
+    _ = t_new
+
+
 def main(chk: core.Check) -> int:
     chk.rule = RULE
     c08_gen.regenerate(chk)   # T-cache: the method bodies as statement IR (Generated/CacheMethods.lean)
@@ -822,6 +870,7 @@ def main(chk: core.Check) -> int:
         thread_race_witness(chk)
         explore(chk, 300 if quick else 4000, (10, 40) if quick else (10, 110))
         many_unfinished(chk, 1100 if quick else 33500)  # beyond 999 / 32766 bound variables
+        pickled_client(chk)
     except core.DriverBroken as e:
         chk.broke("correspondence", {"driver": str(e)[:800]})
     chk.assumptions += [
